@@ -311,6 +311,13 @@ def start_stop(h):
             "start creates the heartbeat task and the timeout task", "a second start has no effect"})
     it = h.it
     w, sock, cfg, mgr, msg, matcher, _ = _manager(h)
+    h.oblige("constructing a manager has no effect on the socket or the loop (no subscription, no task): everything starts with start()",
+             not [e for e in it.path.events if e[0] in ("create_task", "subscribe_on_message_received", "unsubcribe_on_message_received", "call")])
+    mgr_b = h.new(HB + ":HeartbeatManager", loop=aio.LoopModel(), socket=sock, config=cfg)
+    h.oblige("two managers share no state: each has its own response event and its own task list",
+             And(h.attr(mgr, "_response_received") is not h.attr(mgr_b, "_response_received"),
+                 h.attr(mgr, "_heartbeat_tasks") is not h.attr(mgr_b, "_heartbeat_tasks")))
+    it.path.events.clear()
     r = h.method(mgr, "start")
     h.oblige("start raises nothing", r.ok)
     tasks = [e[1] for e in it.path.events if e[0] == "create_task"]
@@ -331,6 +338,14 @@ def start_stop(h):
     n1 = len(it.path.events)
     r4 = h.method(mgr, "stop")
     h.oblige("a second stop has no effect", And(r4.ok, len(it.path.events) == n1))
+    # a second session on the same object (init / shutdown / init): start must do all of it again
+    n2 = len(it.path.events)
+    r5 = h.method(mgr, "start")
+    ev2 = it.path.events[n2:]
+    names2 = sorted(e[1].coro.func.name for e in ev2 if e[0] == "create_task" and isinstance(e[1].coro, Coroutine))
+    h.oblige("a start after a stop is a full start again: both tasks created and _message_received subscribed",
+             And(r5.ok, names2 == ["_heartbeat_loop", "_heartbeat_timeout_loop"],
+                 len([e for e in ev2 if e[0] == "subscribe_on_message_received"]) == 1))
 
 
 @oset("heartbeat.reset-call-sites", ["C08"], [M + "_heartbeat_timeout_loop"], kind="frame")
